@@ -12,6 +12,8 @@ def foreign_jobs(modnames, tier, builds, select=None):
     for mn in modnames:
         mod = importlib.import_module("props." + mn)
         for (fname, arg) in mod.shards(tier):
+            if fname.endswith("_component"):
+                continue        # another property's shard borrowed by mn: the owner's own entry already covers it
             if select and not select(mn, fname, arg):
                 continue
             for b in builds:
@@ -65,3 +67,20 @@ def compare_transcripts(total, pid):
     total.extra["shards_compared_across_builds"] = len(by)
     total.extra["transcripts"] = len(total.extra.get("transcripts", []))
     return bad
+
+
+def run_component(modname, fname, arg, tier, pid):
+    """run one shard of another property's module as a component check of `pid` (same build as the calling shard):
+    e.g. the Poly1305 accumulator-steering cases inside the AEAD properties, whose tags rest on that code"""
+    mod = importlib.import_module("props." + modname)
+    saved = core.PID_OVERRIDE
+    core.PID_OVERRIDE = pid
+    try:
+        st = getattr(mod, fname)(arg, tier)
+    finally:
+        core.PID_OVERRIDE = saved
+    st.extra = {"component_programs_from_%s" % modname.upper(): st.evaluations}
+    st.known = {}
+    for v in st.violations:
+        v["note"] = ((v.get("note") or "") + " [component corpus of %s.%s]" % (modname.upper(), fname)).strip()
+    return st
